@@ -8,7 +8,8 @@ Output gen/TimersGen.v:
   * connectionLost_ka / _dc     -- the two cancel blocks of Banana.connectionLost
   * sendPING / sendPONG         -- whole bodies (on top of gen/BananaGen.v's int2b128, tok_PING, tok_PONG)
   * on_PING / on_PONG / ping_exempt / header_limit -- shape facts of Banana.handleData
-  * timedout_calls              -- Broker.connectionTimedOut -> shutdown -> finish/loseConnection chain (shape)
+  * connectionTimedOut_exc / Broker_shutdown / Broker_connectionLost -- the teardown chain, statement by statement:
+                                   the exception class handed to shutdown, shutdown's and connectionLost's statement lists
 
 The timer fragments are written in a tiny effect language.  Every fragment becomes a function
     now last_rx timeout (ms, Z)  ->  use_ka abandoned (bool)  ->  timer (option Z: absolute expiry of *this* timer)
@@ -37,6 +38,9 @@ Accepted equivalent forms (beyond the literal text of the reference tree), with 
  3. "touches the timer state" is decided on the AST (attribute accesses, names, and string constants that contain one
     of the attribute names, so getattr/setattr by string still count), not on the source text: a docstring or bare
     string statement is evaluated and dropped, it cannot touch anything.
+ 4. handleData's list of token types exempt from the schema check may be the inline tuple or a module-level constant assigned
+    exactly once to that tuple (tuples are immutable; the generator checks there is no other store to the name); the header
+    decode may be the if/else statement or the equivalent conditional expression.
 (The shared front-end translate/normalize.py additionally inlines calls to NEW private helpers and canonicalises renamed
 locals before this module sees the code.)
 """
@@ -76,7 +80,7 @@ class Frag:
             return P.zlit(to_ms(e, un(e)))
         if isinstance(e, ast.Name):
             if e.id == "EPSILON":
-                return P.zlit(self.eps)
+                return "eps"
             if env.get(e.id) == "Z":
                 return e.id
             self.bail(e, "unknown name in arithmetic")
@@ -87,7 +91,9 @@ class Frag:
         if isinstance(e, ast.Attribute) and un(e) == "self." + self.timeout_attr:
             return "timeout"
         if isinstance(e, ast.BinOp) and isinstance(e.op, (ast.Add, ast.Sub)):
-            f = "Z.add" if isinstance(e.op, ast.Add) else "Z.sub"
+            # time arithmetic goes through the parameters add / sub (exact instance: Z.add / Z.sub; lib/TimersRound.v
+            # instantiates them with any operations that are within delta of the exact result: IEEE doubles)
+            f = "add" if isinstance(e.op, ast.Add) else "sub"
             return "(%s %s %s)" % (f, self.ex(e.left, env), self.ex(e.right, env))
         self.bail(e, "expression outside the timer fragment language")
 
@@ -145,7 +151,7 @@ class Frag:
                 return "(let use_ka := %s in\n %s)" % (un(val).lower(), go(env))
             if isinstance(st.targets[0], ast.Name):
                 name = st.targets[0].id
-                if name in ("now", "last_rx", "timeout", "timer", "use_ka", "abandoned", "pings", "teardowns"):
+                if name in ("now", "last_rx", "timeout", "timer", "use_ka", "abandoned", "pings", "teardowns", "add", "sub", "eps"):
                     self.bail(st, "local variable clashes with a model variable")
                 # t = reactor.callLater(delay, self.<callback>)
                 if isinstance(val, ast.Call) and un(val.func) == "reactor.callLater":
@@ -155,7 +161,7 @@ class Frag:
                         self.bail(st, "second callLater while one is pending")
                     env2 = dict(env)
                     env2[name] = "handle"
-                    return "(let %s := Some (Z.add now %s) in\n %s)" % (name, self.ex(val.args[0], env), go(env2))
+                    return "(let %s := Some (add now %s) in\n %s)" % (name, self.ex(val.args[0], env), go(env2))
                 env2 = dict(env)
                 env2[name] = "Z"
                 return "(let %s := %s in\n %s)" % (name, self.ex(val, env), go(env2))
@@ -179,8 +185,9 @@ class Frag:
     def emit(self, name, stmts):
         env = {"@pending": self.pending_on_entry}
         body = self.block(stmts, env, lambda e: self.K)
-        return ("Definition %s (now last_rx timeout : Z) (use_ka abandoned : bool) (timer : option Z) : fx :=\n"
-                " let pings := 0 in let teardowns := 0 in\n %s." % (name, body))
+        return ("Definition %s_g (add sub : Z -> Z -> Z) (eps : Z) (now last_rx timeout : Z) (use_ka abandoned : bool) "
+                "(timer : option Z) : fx :=\n let pings := 0 in let teardowns := 0 in\n %s.\n"
+                "Definition %s := %s_g Z.add Z.sub eps_ms." % (name, body, name, name))
 
 
 def to_ms(node, text):
@@ -398,9 +405,20 @@ def generate():
         raise P.Untranslatable("handleData: PING/PONG are not alternatives of the top-level token dispatch chain")
     ex = [n for n in ast.walk(hd) if isinstance(n, ast.Compare) and un(n.left) == "typebyte"
           and len(n.ops) == 1 and isinstance(n.ops[0], ast.NotIn)]
-    if len(ex) != 1 or not isinstance(ex[0].comparators[0], ast.Tuple):
+    if len(ex) != 1:
         raise P.Untranslatable("handleData: schema-check exemption list not found")
-    names = [un(e) for e in ex[0].comparators[0].elts]
+    lst = ex[0].comparators[0]
+    if isinstance(lst, ast.Name):
+        # accepted form 4: the tuple named by a module-level constant that is assigned exactly once (and never stored to
+        # or mutated: a tuple) -- `typebyte not in NAME` then reads the same tuple
+        defs = [st for st in mod.body if isinstance(st, ast.Assign) and any(isinstance(t, ast.Name) and t.id == lst.id for t in st.targets)]
+        stores = [n for n in ast.walk(mod) if isinstance(n, ast.Name) and n.id == lst.id and isinstance(n.ctx, (ast.Store, ast.Del))]
+        if len(defs) != 1 or len(stores) != 1 or len(defs[0].targets) != 1:
+            raise P.Untranslatable("handleData: exemption list %s is not a module constant assigned once" % lst.id)
+        lst = defs[0].value
+    if not isinstance(lst, ast.Tuple):
+        raise P.Untranslatable("handleData: schema-check exemption list not found")
+    names = [un(e) for e in lst.elts]
     out.append("Definition ping_exempt_from_check : bool := %s." % ("true" if "PING" in names and "PONG" in names else "false"))
     # header limit:  `if pos > 64: raise BananaError`, popleft(65)
     lim = [n for n in ast.walk(hd) if isinstance(n, ast.If) and isinstance(n.test, ast.Compare) and un(n.test.left) == "pos"
@@ -410,9 +428,13 @@ def generate():
         raise P.Untranslatable("handleData: header length limit not found")
     out.append("Definition header_limit : Z := %d.  (* if pos > %d: raise BananaError *)" % ((lim[0].test.comparators[0].value,) * 2))
     hs = un(hd)
-    for frag in ("if ch >= 128:", "typebyte = first65[pos:pos + 1]", "header = b1282int(first65[:pos])", "header = 0"):
+    for frag in ("if ch >= 128:", "typebyte = first65[pos:pos + 1]"):
         if frag not in hs:
             raise P.Untranslatable("handleData no longer contains " + frag)
+    # `if pos: header = b1282int(first65[:pos]) else: header = 0`, or the same as a conditional expression
+    if not (("header = b1282int(first65[:pos])" in hs and "header = 0" in hs and "if pos:" in hs)
+            or "header = b1282int(first65[:pos]) if pos else 0" in hs):
+        raise P.Untranslatable("handleData no longer computes header = b1282int(first65[:pos]) if pos else 0")
 
     # ---- Broker.connectionTimedOut -> shutdown -> finish + loseConnection ; finish -> abandonAllRequests
     bm = P.load("broker.py")
@@ -438,16 +460,68 @@ def generate():
                 return st.value if node.id == nm else node
         arg = Sub().visit(arg)
     a = un(arg)
-    if not (a.startswith("failure.Failure(error.ConnectionLost(") and isinstance(arg, ast.Call) and len(arg.args) == 1
-            and isinstance(arg.args[0], ast.Call) and all(isinstance(x, ast.Constant) for x in arg.args[0].args)):
+    if not (isinstance(arg, ast.Call) and un(arg.func) == "failure.Failure" and len(arg.args) == 1 and not arg.keywords
+            and isinstance(arg.args[0], ast.Call) and isinstance(arg.args[0].func, ast.Attribute)
+            and un(arg.args[0].func.value) == "error" and not arg.args[0].keywords
+            and all(isinstance(x, ast.Constant) for x in arg.args[0].args)):
         raise P.Untranslatable("Broker.connectionTimedOut passes %s to shutdown" % a[:120])
-    sh = [un(s) for s in P.find_def(bm, "Broker.shutdown").body]
-    if "self.finish(why)" not in sh or "self.transport.loseConnection()" not in sh \
-            or sh.index("self.finish(why)") > sh.index("self.transport.loseConnection()"):
-        raise P.Untranslatable("Broker.shutdown changed: %r" % sh)
+    exc_name = arg.args[0].func.attr
+    exc = {"ConnectionLost": "ExcConnectionLost", "ConnectionDone": "ExcConnectionDone"}.get(exc_name, "ExcOther")
+    out.append("(* the exception class Broker.connectionTimedOut wraps in the Failure it hands to self.shutdown *)\n"
+               "Inductive timeout_exc := ExcConnectionLost | ExcConnectionDone | ExcOther.\n"
+               "Definition connectionTimedOut_exc : timeout_exc := %s.  (* self.shutdown(%s) *)" % (exc, a[:100].replace('"', "'").replace("*)", "* )")))
+
+    # Broker.shutdown, statement by statement
+    sh = P.find_def(bm, "Broker.shutdown")
+    if [x.arg for x in sh.args.args] != ["self", "why", "fireDisconnectWatchers"] or [un(d) for d in sh.args.defaults] != ["True"]:
+        raise P.Untranslatable("Broker.shutdown signature changed")
+    prog = []
+    for st in sh.body:
+        t = un(st)
+        if isinstance(st, ast.Expr) and isinstance(st.value, ast.Constant):
+            continue
+        if isinstance(st, ast.Assert) and t == "assert isinstance(why, failure.Failure)":
+            prog.append("SAssertFailure")
+        elif isinstance(st, ast.If) and un(st.test) == "not fireDisconnectWatchers" and not st.orelse \
+                and [un(x) for x in st.body] == ["self.disconnectWatchers = []"]:
+            prog.append("SDropWatchers")
+        elif t == "self.finish(why)":
+            prog.append("SFinish")
+        elif t == "self.transport.loseConnection()":
+            prog.append("SLoseConnection")
+        elif t.startswith("log.msg(") and not mentions(st, TIMER_WORDS):
+            continue
+        else:
+            raise P.Untranslatable("Broker.shutdown: statement outside the teardown language: " + t[:120])
+    out.append("(* Broker.shutdown(why), statement by statement *)\n"
+               "Inductive sstmt := SAssertFailure | SDropWatchers | SFinish | SLoseConnection.\n"
+               "Definition Broker_shutdown : list sstmt := [%s]." % "; ".join(prog))
+
+    # Broker.connectionLost(why), statement by statement: statements that neither touch the timers nor call into the
+    # teardown (finish / shutdown / abandonAllRequests / connectionLost) nor leave the method are LOther
+    bl = P.find_def(bm, "Broker.connectionLost")
+    prog = []
+    for st in bl.body:
+        t = un(st)
+        if isinstance(st, ast.Expr) and isinstance(st.value, ast.Constant):
+            continue
+        if t in ("banana.Banana.connectionLost(self, why)", "super().connectionLost(why)",
+                 "super(Broker, self).connectionLost(why)"):
+            prog.append("LBananaConnectionLost")
+        elif t == "self.finish(why)":
+            prog.append("LFinish")
+        elif t == "self._notifyConnectionLostWatchers()":
+            prog.append("LNotifyWatchers")
+        else:
+            leaves = any(isinstance(n, (ast.Return, ast.Raise, ast.Try, ast.While, ast.For, ast.With)) for n in ast.walk(st))
+            if leaves or mentions(st, TIMER_WORDS + ["finish", "shutdown", "abandonAllRequests", "connectionLost",
+                                                     "waitingForAnswers", "disconnected"]):
+                raise P.Untranslatable("Broker.connectionLost: statement outside the teardown language: " + t[:120])
+            prog.append("LOther")
+    out.append("(* Broker.connectionLost(why), statement by statement *)\n"
+               "Inductive lstmt := LOther | LBananaConnectionLost | LFinish | LNotifyWatchers.\n"
+               "Definition Broker_connectionLost : list lstmt := [%s]." % "; ".join(prog))
     fi = [un(s) for s in P.find_def(bm, "Broker.finish").body]
     if "self.abandonAllRequests(why)" not in fi:
         raise P.Untranslatable("Broker.finish no longer abandons the pending requests")
-    out.append("Definition timedout_calls : list string := "
-               "[\"shutdown\"%string; \"finish\"%string; \"abandonAllRequests\"%string; \"loseConnection\"%string].")
     return {"TimersGen.v": "\n\n".join(out) + "\n"}
